@@ -132,6 +132,7 @@ pub fn scenario(idx: usize, seed: u64, mode: Mode, max_steps: usize) -> Scenario
         let mut adv_conns: Vec<(usize, quinn::Connection)> = Vec::new();
 
         let steps = rng.gen_range(10..=max_steps.max(11));
+        let mut handles: Vec<(usize, PeerId, anemo::Peer)> = Vec::new();
         let mut faults_active = false;
         let mut last_fault_or_action = w.now();
         let mut quiescent_points = 0u64;
@@ -147,17 +148,37 @@ pub fn scenario(idx: usize, seed: u64, mode: Mode, max_steps: usize) -> Scenario
             }
             let label;
             if kind < 30 {
-                // dial
+                // dial: single, or two racing dials (same direction / towards each other)
                 let pinned = rng.gen_bool(0.5);
                 let addr = h.nodes[b].addr;
                 let pid = h.nodes[b].peer_id;
-                let r = if pinned {
-                    h.nodes[a].net.connect_with_peer_id(addr, pid).await
+                let shape = rng.gen_range(0..10);
+                let r = if shape < 6 {
+                    if pinned {
+                        h.nodes[a].net.connect_with_peer_id(addr, pid).await
+                    } else {
+                        h.nodes[a].net.connect(addr).await
+                    }
+                } else if shape < 8 {
+                    let (r1, r2) = tokio::join!(h.nodes[a].net.connect(addr), h.nodes[a].net.connect_with_peer_id(addr, pid));
+                    h.bump("racing_double_dials");
+                    r1.and(r2)
                 } else {
-                    h.nodes[a].net.connect(addr).await
+                    let back = h.nodes[a].addr;
+                    let (r1, r2) = tokio::join!(h.nodes[a].net.connect(addr), h.nodes[b].net.connect(back));
+                    h.bump("racing_mutual_dials");
+                    r1.and(r2)
                 };
-                label = format!("dial {a}->{b} pinned={pinned} ok={}", r.is_ok());
+                label = format!("dial {a}->{b} shape={shape} pinned={pinned} ok={}", r.is_ok());
                 h.bump(if r.is_ok() { "dials_ok" } else { "dials_failed" });
+                // remember a handle to the connection as the application would
+                if let Some(peer) = h.nodes[a].net.peer(pid) {
+                    let ida = h.nodes[a].idx;
+                    handles.push((ida, pid, peer));
+                    if handles.len() > 40 {
+                        handles.remove(0);
+                    }
+                }
                 last_fault_or_action = w.now();
             } else if kind < 45 {
                 // explicit disconnect + its semantics
@@ -202,6 +223,20 @@ pub fn scenario(idx: usize, seed: u64, mode: Mode, max_steps: usize) -> Scenario
                     }
                     h.bump("disconnects_of_listed_peer");
                 }
+                // handles to the peer obtained before the disconnect must be dead as well
+                let ida = h.nodes[a].idx;
+                let stale: Vec<anemo::Peer> = handles.iter().filter(|(n, q, _)| *n == ida && *q == p).map(|(_, _, x)| x.clone()).collect();
+                handles.retain(|(n, q, _)| !(*n == ida && *q == p));
+                for mut ph in stale.into_iter().take(3) {
+                    let req = world::build_request(w.next_id(), &RpcSpec::simple(8, 5));
+                    let r = tokio::time::timeout(Duration::from_secs(5), ph.rpc(req)).await;
+                    h.bump("stale_handle_rpcs");
+                    if let Ok(Ok(_)) = r {
+                        if !h.nodes[a].net.peers().contains(&p) {
+                            h.c09.push(format!("node {a}: an rpc through a handle to {} obtained before disconnect() still succeeds although the peer is no longer connected", pid_hex(&p)));
+                        }
+                    }
+                }
                 label = format!("disconnect {a}-x->{b} listed={was_listed}");
                 last_fault_or_action = w.now();
             } else if kind < 52 {
@@ -213,6 +248,7 @@ pub fn scenario(idx: usize, seed: u64, mode: Mode, max_steps: usize) -> Scenario
                     c
                 };
                 let idx_old = old.idx;
+                handles.retain(|(n, _, _)| *n != idx_old);
                 let r = tokio::time::timeout(Duration::from_secs(30), old.net.shutdown()).await;
                 if r.is_err() {
                     h.inconclusive = Some("restart: shutdown did not return in 30 s (virtual)".into());
@@ -472,30 +508,31 @@ async fn quiescent_check(
                     })
                 })
             };
+            // The end that still lists the peer holds a connection whose other end is gone without
+            // having been able to tell it (its close was lost in a fault, it expired silently, or
+            // the node restarted).  QUIC keeps such a connection for max(idle timeout, 3 x PTO) after
+            // the end's own last receive.  If the stale end drops the peer on its own - no API
+            // activity - within 10 idle timeouts it is the recorded finding; otherwise a violation.
             let mut known = false;
-            if let Some((c, reason)) = last_lost_at_b {
-                let silent = matches!(reason, DisconnectReason::TimedOut);
+            let _ = &last_lost_at_b;
+            if !h.nodes[b].net.peers().contains(&pa) || true {
                 let it_us = it.as_micros() as u64;
-                if silent && !h.nodes[b].net.peers().contains(&pa) {
-                    // the stale end must expire on its own (no API activity) within 10 idle timeouts
-                    let deadline = c + 10 * it_us;
-                    while w.now() < deadline && h.nodes[a].net.peers().contains(&pb) {
-                        tokio::time::sleep(Duration::from_millis(50)).await;
-                    }
-                    let a_lost = {
-                        let g = w.log.lock();
-                        g.events.get(&ida).and_then(|v| {
-                            v.iter().rev().find_map(|e| match &e.ev {
-                                PeerEvent::LostPeer(p, r) if *p == pb && e.t >= c => Some(r.clone()),
-                                _ => None,
-                            })
+                let start = w.now();
+                let deadline = start + 10 * it_us;
+                while w.now() < deadline && h.nodes[a].net.peers().contains(&pb) {
+                    tokio::time::sleep(Duration::from_millis(50)).await;
+                }
+                let a_lost = {
+                    let g = w.log.lock();
+                    g.events.get(&ida).and_then(|v| {
+                        v.iter().rev().find_map(|e| match &e.ev {
+                            PeerEvent::LostPeer(p, r) if *p == pb && e.t >= start.saturating_sub(1_000_000) => Some(r.clone()),
+                            _ => None,
                         })
-                    };
-                    if !h.nodes[a].net.peers().contains(&pb)
-                        && matches!(a_lost, Some(DisconnectReason::TimedOut) | Some(DisconnectReason::Reset))
-                    {
-                        known = true;
-                    }
+                    })
+                };
+                if !h.nodes[a].net.peers().contains(&pb) && !matches!(a_lost, None | Some(DisconnectReason::Requested)) {
+                    known = true;
                 }
             }
             if known {
@@ -523,14 +560,30 @@ async fn quiescent_check(
                 ));
             }
             if listed && open.is_empty() {
-                h.c04.push(format!(
-                    "node {v} lists the adversary's identity although all its connections are closed"
-                ));
+                // the node has not *seen* the connection closed if the adversary's end expired
+                // silently; its own timers must remove the entry without outside help
+                let deadline = w.now() + 10 * it.as_micros() as u64 + 6_000_000;
+                while w.now() < deadline && h.nodes[v].net.peers().contains(&y) {
+                    tokio::time::sleep(Duration::from_millis(100)).await;
+                }
+                if h.nodes[v].net.peers().contains(&y) {
+                    h.c04.push(format!(
+                        "node {v} keeps listing the adversary's identity although all its connections are closed"
+                    ));
+                }
             }
             if !listed && !open.is_empty() {
-                h.c04.push(format!(
-                    "node {v} does not list the adversary but a connection with it is still open"
-                ));
+                // the adversary's end may outlive the node's by its own idle timer (max(idle,
+                // 3 x PTO), re-armed once by its keep-alive); it must die on its own, though
+                let deadline = w.now() + 10 * it.as_micros() as u64 + 6_000_000;
+                while w.now() < deadline && adv_conns.iter().any(|(vv, c)| *vv == v && c.close_reason().is_none()) {
+                    tokio::time::sleep(Duration::from_millis(100)).await;
+                }
+                if adv_conns.iter().any(|(vv, c)| *vv == v && c.close_reason().is_none()) {
+                    h.c04.push(format!(
+                        "node {v} does not list the adversary but a connection with it stays open"
+                    ));
+                }
             }
         }
     }
